@@ -17,13 +17,18 @@ def HPC.pending : HPC → Option (Tid × Nat × Bool)
 
 /-- the caller for whose hold the handler holds the slot -/
 def HPC.holds : HPC → Option Tid
-  | .slot t _ _ | .wait t _ | .rel t => some t
+  | .slot t _ _ | .wait t _ | .rel t _ => some t
   | _ => none
 
 def sentPc (w : Bool) : PC := if w then .wSent else .rSent
 
 /-- the writer's answer is on its way: granted, slot kept for it -/
 def inflight (s : State) (t : Tid) : Prop := s.pcs t = .wSent ∧ s.resp t = some false
+
+/-- reader states after a successful answer was received -/
+def PC.afterGrant : PC → Bool
+  | .rGranted | .rHolding | .rUnlocking | .rDone | .idle => true
+  | _ => false
 
 def PC.shutPath : PC → Bool
   | .wShut | .wGranted true | .wHolding true | .wUnlocking true => true
@@ -49,12 +54,19 @@ structure RInv (s : State) : Prop where
   z : ∀ (t : Tid), (s.pcs t).shutPath = false
   /-- a granted writer excludes live reader registrations -/
   n1 : ∀ (w t : Tid), (s.pcs w).slotWriter = true ∨ inflight s w → s.live t = false
+  /-- a live registration belongs to a reader that was answered and has not released -/
+  n3 : ∀ (t : Tid), s.live t = true →
+        (s.pcs t = .rSent ∧ s.resp t = some false) ∨ (s.pcs t).reading = true ∨ s.pcs t = .rUnlocking
+  /-- the hold whose slot the handler is about to give back is an answered reader hold: an older one,
+  or the caller's current one, which then is past (or at) its successful answer -/
+  e1 : ∀ (t : Tid) (g : Nat), s.hpc = .rel t g → g ≤ s.gen t ∧
+        (g = s.gen t → (s.pcs t = .rSent ∧ s.resp t = some false) ∨ (s.pcs t).afterGrant = true)
   /-- an admitted reader is registered or was told to stop -/
   n2 : ∀ (t : Tid), (s.pcs t).reading = true ∨ (s.pcs t = .rSent ∧ s.resp t = some false) →
         s.live t = true ∨ (s.told t).isSome = true
 
 theorem rinv_init (n g : Nat) : RInv (init n g) := by
-  constructor <;> simp [init, HPC.pending, HPC.holds, inflight, PC.slotWriter, PC.shutPath, PC.reading]
+  constructor <;> simp [init, HPC.pending, HPC.holds, inflight, PC.slotWriter, PC.shutPath, PC.reading, PC.afterGrant]
 
 /-- `closed` is never reset. -/
 theorem closed_mono (s s' : State) (a : L) (hs : step s a = some s') (h : s'.closed = false) :
@@ -94,18 +106,20 @@ theorem closed_mono (s s' : State) (a : L) (hs : step s a = some s') (h : s'.clo
 
 macro "ri_close" : tactic =>
   `(tactic| (constructor <;> dsimp only <;>
-      grind [HPC.pending, HPC.holds, sentPc, inflight, PC.slotWriter, PC.shutPath, PC.reading,
+      grind [HPC.pending, HPC.holds, sentPc, inflight, PC.slotWriter, PC.shutPath, PC.reading, PC.afterGrant,
              rcancel, launchAll, deliver]))
 
+set_option maxHeartbeats 4000000 in
 theorem rinv_call (s : State) (t : Tid) (op : Op) (s' : State) (h : RInv s) (hc : s.closed = false)
     (hs : step s (.call t op) = some s') : RInv s' := by
-  obtain ⟨p1, p2, r0, r1, s1, s2, s3, s4, z, n1, n2⟩ := h
+  obtain ⟨p1, p2, r0, r1, s1, s2, s3, s4, z, n1, n3, e1, n2⟩ := h
   cases op <;> simp only [step, stepCore] at hs <;> (repeat' split at hs) <;> simp at hs <;> subst hs
   all_goals ri_close
 
+set_option maxHeartbeats 4000000 in
 theorem rinv_ret (s : State) (t : Tid) (r : Nat) (s' : State) (h : RInv s) (hc : s.closed = false)
     (hs : step s (.ret t r) = some s') : RInv s' := by
-  obtain ⟨p1, p2, r0, r1, s1, s2, s3, s4, z, n1, n2⟩ := h
+  obtain ⟨p1, p2, r0, r1, s1, s2, s3, s4, z, n1, n3, e1, n2⟩ := h
   simp only [step, stepCore] at hs
   (repeat' split at hs) <;> simp at hs <;> subst hs
   all_goals ri_close
@@ -115,9 +129,10 @@ theorem rinv_probe (s : State) (t : Tid) (p : Probe) (s' : State) (h : RInv s)
   cases p <;> simp only [step, stepCore] at hs <;> (repeat' split at hs) <;> simp at hs <;>
     subst hs <;> exact h
 
+set_option maxHeartbeats 4000000 in
 theorem rinv_env (s : State) (e : Env) (s' : State) (h : RInv s) (hc : s.closed = false)
     (hs : step s (.env e) = some s') : RInv s' := by
-  obtain ⟨p1, p2, r0, r1, s1, s2, s3, s4, z, n1, n2⟩ := h
+  obtain ⟨p1, p2, r0, r1, s1, s2, s3, s4, z, n1, n3, e1, n2⟩ := h
   cases e <;> simp only [step, stepCore] at hs <;> simp at hs <;> subst hs
   all_goals ri_close
 
@@ -138,7 +153,7 @@ theorem no_pending_of_called {s : State}
 set_option maxHeartbeats 4000000 in
 theorem rinv_tau (s : State) (t : Tid) (alt : Nat) (s' : State) (h : RInv s) (hc : s.closed = false)
     (hs : step s (.tau t alt) = some s') : RInv s' := by
-  obtain ⟨p1, p2, r0, r1, s1, s2, s3, s4, z, n1, n2⟩ := h
+  obtain ⟨p1, p2, r0, r1, s1, s2, s3, s4, z, n1, n3, e1, n2⟩ := h
   simp only [step, stepCore, hc] at hs
   split at hs
   · -- wCalled
@@ -180,7 +195,7 @@ theorem rinv_tau (s : State) (t : Tid) (alt : Nat) (s' : State) (h : RInv s) (hc
 set_option maxHeartbeats 4000000 in
 theorem rinv_grace (s : State) (j alt : Nat) (s' : State) (h : RInv s) (hc : s.closed = false)
     (hs : step s (.sys (j + 2) alt) = some s') : RInv s' := by
-  obtain ⟨p1, p2, r0, r1, s1, s2, s3, s4, z, n1, n2⟩ := h
+  obtain ⟨p1, p2, r0, r1, s1, s2, s3, s4, z, n1, n3, e1, n2⟩ := h
   simp only [step, stepCore, hc] at hs
   split at hs
   · split at hs
@@ -193,7 +208,7 @@ set_option maxHeartbeats 4000000 in
 theorem rinv_handler (s : State) (alt : Nat) (s' : State) (h : RInv s) (hc : s.closed = false)
     (hlv : ∀ t, s.live t = true → t < s.n)
     (hs : step s (.sys 0 alt) = some s') : RInv s' := by
-  obtain ⟨p1, p2, r0, r1, s1, s2, s3, s4, z, n1, n2⟩ := h
+  obtain ⟨p1, p2, r0, r1, s1, s2, s3, s4, z, n1, n3, e1, n2⟩ := h
   simp only [step, stepCore, hc] at hs
   split at hs
   · -- idle
